@@ -23,7 +23,7 @@ pub struct ShapeSpec {
 
 impl ShapeSpec {
     pub fn generate(rng: &mut Rng, idx: u64) -> ShapeSpec {
-        let family = KeyFamily::ALL[(idx % 5) as usize];
+        let family = KeyFamily::ALL[(idx % 6) as usize];
         let style = (idx / 5) % 4;
         let mut cfg = gen::tiny_config(rng);
         if rng.chance(0.15) {
